@@ -472,6 +472,7 @@ impl Sim {
             .collect();
         let start_steps = core.steps.get();
         let saved_task = core.cur_task.get();
+        let _ = qcow2_rs::verif::take_last_probes();
 
         let result = loop {
             let ready_ids: Vec<usize> = {
@@ -485,8 +486,15 @@ impl Sim {
             let total = ready_ids.len() + npend;
             if total == 0 {
                 let unfinished: Vec<usize> = (0..n).filter(|i| !finished[*i]).collect();
+                let last = qcow2_rs::verif::take_last_probes();
+                let mut waits = String::new();
+                for t in &unfinished {
+                    let v = last.get(t).cloned().unwrap_or_default();
+                    let tail: Vec<&str> = v.iter().rev().take(4).rev().copied().collect();
+                    waits.push_str(&format!("\n    task {t}: last probes {:?}", tail));
+                }
                 break Err(Stop::Deadlock(format!(
-                    "tasks {:?} unfinished, none ready, no request outstanding",
+                    "tasks {:?} unfinished, none ready, no request outstanding{waits}",
                     unfinished
                 )));
             }
@@ -520,6 +528,7 @@ impl Sim {
                 let t = ready_ids[idx];
                 ready.lock().unwrap()[t] = false;
                 core.cur_task.set(t);
+                qcow2_rs::verif::set_current_task(t);
                 self.note_event(1, t as u64, 0, 0);
                 let mut cx = Context::from_waker(&wakers[t]);
                 if let Poll::Ready(()) = tasks[t].as_mut().poll(&mut cx) {
